@@ -584,6 +584,15 @@ func (c *VirtualTable) Insert(ctx context.Context, values map[int]interface{}) (
 	if ok && (!old.Deleted || ot.Add(old.DeleteUpdateOffset.AsDuration()).After(t)) {
 		return 0, ErrS3DBConstraintPrimaryKey
 	}
+	n := len(c.schema.Columns)
+	if c.usesRowID {
+		n++
+	}
+	for i := 0; i < n; i++ {
+		if i != c.KeyCol && values[i] == nil && c.notNull(i) {
+			return 0, ErrS3DBConstraintNotNull
+		}
+	}
 	new.ColumnValues = make(map[string]*v1proto.ColumnValue)
 	for i, v := range values {
 		if i == c.KeyCol {
@@ -625,6 +634,9 @@ func (c *VirtualTable) Update(ctx context.Context, key interface{}, values map[i
 		if i == c.KeyCol {
 			continue
 		}
+		if v == nil && c.notNull(i) {
+			return ErrS3DBConstraintNotNull
+		}
 		dbg("SET %d %v=%v\n", i, key, v)
 		colName := c.ColumnNameByIndex[i]
 		new.ColumnValues[colName] = ToColumnValue(v)
@@ -635,6 +647,15 @@ func (c *VirtualTable) Update(ctx context.Context, key interface{}, values map[i
 		return fmt.Errorf("set: %w", err)
 	}
 	return nil
+}
+
+// notNull reports whether the declared column i (counting the hidden
+// _rowid_ column of tables without a primary key) was declared NOT NULL.
+func (c *VirtualTable) notNull(i int) bool {
+	if c.usesRowID {
+		i--
+	}
+	return i >= 0 && i < len(c.schema.Columns) && c.schema.Columns[i].NotNull
 }
 
 func (c *VirtualTable) Delete(ctx context.Context, key interface{}) error {
